@@ -164,7 +164,7 @@ class Decoder(Coder):
 
         # TODO: option to ignore the declared length?
         # TODO: this depends on a specific parameter name, need change to parameter type?
-        if 'section_length' in section:
+        if 'section_length' in section and not section.get_metadata('is_truncated'):
             nbits_read = bit_reader.get_pos() - section.get_metadata(BITPOS_START)
             nbits_unread = section.section_length.value * NBITS_PER_BYTE - nbits_read
             if nbits_unread > 0:
